@@ -146,13 +146,13 @@ UNIT_SEEN: dict = {}
 
 
 def unit_scale(rng) -> float:
-    """Length unit of a generated case: 1 for most, otherwise a power of ten in 1e-3..1e3 (the statements speak
+    """Length unit of a generated case: 1 for most, otherwise a power of ten in 1e-9..1e9 (the statements speak
     about grids and droplets, not about the unit their lengths are measured in)."""
     import os
     p = float(os.environ.get("VERIF_UNITSCALE_P", UNIT_P))
     if p <= 0 or rng.random() >= p:
         return 1.0
-    u = float(10.0 ** rng.integers(-3, 4))
+    u = float(10.0 ** int(rng.choice([-9, -6, -3, -2, -1, 0, 1, 2, 3, 6, 9])))
     UNIT_SEEN[f"{u:g}"] = UNIT_SEEN.get(f"{u:g}", 0) + 1
     return u
 
@@ -174,13 +174,14 @@ def rand_cart_spec(rng, dim, *, nmin=4, nmax=12, hmin=0.3, hmax=2.5, periodic=No
         periodic = [bool(rng.integers(0, 2)) for _ in range(dim)]
     bounds = [[float(lo[i]), float(lo[i] + h[i] * shape[i])] for i in range(dim)]
     return {"family": "cart", "bounds": bounds, "shape": shape,
-            "periodic": [bool(p) for p in periodic]}
+            "periodic": [bool(p) for p in periodic], "unit": u}
 
 
 def rand_sym_spec(rng, family, *, nmin=6, nmax=30, hmin=0.3, hmax=2.5):
     n = int(rng.integers(nmin, nmax + 1))
-    h = float(np.round(rng.uniform(hmin, hmax), 4)) * unit_scale(rng)
-    return {"family": family, "radius": h * n, "shape": [n]}
+    u = unit_scale(rng)
+    h = float(np.round(rng.uniform(hmin, hmax), 4)) * u
+    return {"family": family, "radius": h * n, "shape": [n], "unit": u}
 
 
 def rand_cyl_spec(rng, *, nmin=6, nmax=24, hmin=0.3, hmax=2.0, periodic_z=None,
@@ -194,7 +195,7 @@ def rand_cyl_spec(rng, *, nmin=6, nmax=24, hmin=0.3, hmax=2.0, periodic_z=None,
     if periodic_z is None:
         periodic_z = bool(rng.integers(0, 2))
     return {"family": "cyl", "radius": hr * nr, "bounds_z": [z0, z0 + hz * nz],
-            "shape": [nr, nz], "periodic_z": bool(periodic_z)}
+            "shape": [nr, nz], "periodic_z": bool(periodic_z), "unit": u}
 
 
 def all_periodic_masks(dim):
